@@ -78,15 +78,34 @@ def load_contracts(prop):
 def _child(ob_name, tier, seed, conn):
     t0 = time.time()
     try:
+        # address-space limit per prover process: running out of memory is a resource limit (undecided), never a verdict
+        try:
+            import resource
+
+            lim = int(float(os.environ.get("VERIF_MEM_GB", "10")) * 2**30)
+            resource.setrlimit(resource.RLIMIT_AS, (lim, lim))
+        except (ImportError, ValueError, OSError):
+            pass
         ob = REGISTRY[ob_name]
         res = ob.run(ob, tier, seed)
         res.time_s = time.time() - t0
+    except MemoryError:
+        res = Result(UNDECIDED, detail="prover memory limit reached (VERIF_MEM_GB)", time_s=time.time() - t0)
     except BaseException as e:  # noqa: BLE001
         res = Result(ERROR, detail=f"{type(e).__name__}: {e}\n{traceback.format_exc()[-3000:]}", time_s=time.time() - t0)
     try:
         conn.send(dataclasses.asdict(res))
     finally:
         conn.close()
+
+
+def _dead_worker(p):
+    """A worker that was killed by a signal (the kernel's OOM killer, an external kill) ran into a resource limit: undecided.
+    A worker that exits on its own without a result is a checker error."""
+    code = p.exitcode
+    if code is not None and code < 0:
+        return Result(UNDECIDED, detail=f"prover process killed by signal {-code} (memory / resource limit)")
+    return Result(ERROR, detail=f"worker exited with code {code} without a result")
 
 
 def run_obligations(obs, tier, seed, jobs=None, verbose=True):
@@ -115,10 +134,11 @@ def run_obligations(obs, tier, seed, jobs=None, verbose=True):
                 try:
                     res = Result(**pc.recv())
                 except EOFError:
-                    res = Result(ERROR, detail="worker died without a result")
+                    p.join(5)
+                    res = _dead_worker(p)
                 p.join(5)
             elif not p.is_alive():
-                res = Result(ERROR, detail=f"worker exited with code {p.exitcode} without a result")
+                res = _dead_worker(p)
             elif time.time() - t0 > limit:
                 p.terminate()
                 p.join(5)
